@@ -28,6 +28,9 @@ type propSpec struct {
 
 var registry = map[string]*propSpec{}
 
+// properties whose rules compare against POSIX tables and are therefore not evaluated on GOOS=windows
+var posixOnly = map[string]bool{"C05": true, "C09": true, "C11": true, "C17": true, "DBG": true}
+
 func register(id string, s *propSpec) { registry[id] = s }
 
 func main() {
@@ -99,8 +102,23 @@ func main() {
 		start := time.Now()
 		cmdline := fmt.Sprintf("bin/sftpcheck -property %s -tier %s", id, *tier)
 		cfgs := []BuildConfig{cfgDefault}
+		if forced := os.Getenv("VERIF_CONFIG"); forced != "" {
+			// experiment switch: run the rules on one other build configuration only
+			for _, k := range []BuildConfig{cfg386, cfgDebug, cfgWindows, cfgDarwin, cfgPlan9} {
+				if k.Name == forced {
+					cfgs = []BuildConfig{k}
+				}
+			}
+		}
 		if *tier == "thorough" {
 			cfgs = append(cfgs, spec.extra...)
+			// the build-tagged files of the other targets: darwin shares the unix files with other syscall tables;
+			// windows brings server_windows.go, request_windows.go and the stub files.  Rules whose oracle tables are
+			// POSIX by construction (errno values, Stat_t, statvfs, the toLocalPath of server_unix.go) are not run there.
+			cfgs = append(cfgs, cfgDarwin)
+			if !posixOnly[id] {
+				cfgs = append(cfgs, cfgWindows)
+			}
 		}
 		res := &runResult{stats: map[string]any{}}
 		for _, cfg := range cfgs {
